@@ -59,7 +59,7 @@ def run(ctx):
     with open(beh, "w") as f:
         f.write("\n".join(lines) + "\n")
     out = ctx.path("lb_result.json")
-    ctx.drv(["lb", "-in", beh, "-out", out], timeout=1800)
+    ctx.drv(["lb", "-in", beh, "-out", out, "-balance"], timeout=1800)
     r = json.load(open(out))
     # concurrent clause under the race detector
     outc = ctx.path("lb_result_conc.json")
@@ -67,7 +67,7 @@ def run(ctx):
     with open(head, "w") as f:
         step = max(1, len(lines) // (400 if thorough else 60))
         f.write("\n".join(lines[::step]) + "\n")
-    rc, so, se = ctx.drv(["lb", "-in", head, "-out", outc, "-concurrent", "100000"], race=True, timeout=1800, check=False)
+    rc, so, se = ctx.drv(["lb", "-in", head, "-out", outc, "-concurrent", "100000", "-balance"], race=True, timeout=1800, check=False)
     races = se.count("WARNING: DATA RACE")
     rconc = json.load(open(outc)) if os.path.exists(outc) else {"concurrent": None}
     if rc != 0 and not races:
@@ -79,6 +79,11 @@ def run(ctx):
     conc = rconc.get("concurrent") or {}
     for v in conc.get("violations") or []:
         ctx.violation("lb:concurrent-plan-unsafe", v, replay={"what": v})
+    # NewPlan is one atomic step in LoadBalancer.tla: concurrent planners over a fixed membership get consecutive starts
+    unb = ((r.get("concurrent") or {}).get("unbalanced") or []) + (conc.get("unbalanced") or [])
+    if unb:
+        ctx.violation("lb:concurrent-plans-not-consecutive", unb[0], replay={"what": unb})
+    ctx.notes["concurrent_balance_runs"] = ((r.get("concurrent") or {}).get("balance_runs") or 0) + (conc.get("balance_runs") or 0)
     if races:
         m = re.search(r"WARNING: DATA RACE.*?(?=\n\n)", se, flags=re.S)
         ctx.violation("lb:data-race", "race detector report during concurrent plan/event replay",
